@@ -62,10 +62,21 @@ def run_unit(u, unit_dir, repo_root, scratch, tier):
             def _lim():
                 # no swap on this machine: cap the solver's address space so a blow-up ends in UNDECIDED, not OOM
                 resource.setrlimit(resource.RLIMIT_AS, (int(h.get('mem_gb', 20)) << 30, int(h.get('mem_gb', 20)) << 30))
-            p = subprocess.run(cmd, cwd=crate, env=env, capture_output=True, text=True, timeout=h.get('timeout_s', 900), preexec_fn=_lim)
-            out = p.stdout + p.stderr
-        except subprocess.TimeoutExpired:
-            out = 'TIMEOUT'
+            # own process group: on a timeout the whole tree (cargo-kani -> kani-driver -> cbmc) is killed, not just the parent
+            pp = subprocess.Popen(cmd, cwd=crate, env=env, stdout=subprocess.PIPE, stderr=subprocess.PIPE, text=True, preexec_fn=_lim, start_new_session=True)
+            try:
+                so, se = pp.communicate(timeout=h.get('timeout_s', 900))
+                out = so + se
+            except subprocess.TimeoutExpired:
+                import signal
+                try:
+                    os.killpg(pp.pid, signal.SIGKILL)
+                except OSError:
+                    pass
+                pp.communicate()
+                out = 'TIMEOUT'
+        except OSError as e:
+            out = 'TOOL ERROR %s' % e
         dt = time.time() - th
         if 'VERIFICATION:- SUCCESSFUL' in out:
             r = 'SUCCESSFUL'
